@@ -153,7 +153,7 @@ let run_node (id : ostring) (body : Sx.t list) : ostring =
              ignore err_name;
              check res nd' obs; nd := nd'
            | [A "admit"; t; obs] ->
-             (match admit o.value_fn o.addr_of o.sig_ok o.st !nd (tx_of_sx t) with
+             (match pool_add o.value_fn o.addr_of o.sig_ok o.st !nd (tx_of_sx t) with
               | Ok nd' -> check "ok" nd' obs; nd := nd'
               | Err e -> check ("err:" ^ err_name e) !nd obs)
            | [A "regsync"; L poh; L order; obs] ->
